@@ -19,3 +19,27 @@ package hc
 //@   callpre MarkHostHealthy @healthy-only-after-at-least-the-rise-threshold-of-consecutive-successes arg1 == host && atomu64[host.Stats.successfulCount] >= uint64(m.config.RiseThreshold) && atomu64[host.Stats.failedCount] == 0
 //@   callpre MarkHostUnhealthy @unhealthy-only-after-at-least-the-fall-threshold-of-consecutive-failures arg1 == host && atomu64[host.Stats.failedCount] >= uint64(m.config.FallThreshold) && atomu64[host.Stats.successfulCount] == 0
 //@   ensures @every-result-is-counted-and-restarts-the-opposite-run (atomu64[host.Stats.successfulCount] == uint64(old(atomu64[host.Stats.successfulCount]) + 1) && atomu64[host.Stats.failedCount] == 0) || (atomu64[host.Stats.failedCount] == uint64(old(atomu64[host.Stats.failedCount]) + 1) && atomu64[host.Stats.successfulCount] == 0) || (atomu64[host.Stats.successfulCount] == 0 && atomu64[host.Stats.failedCount] == 0)
+
+// ---- C15 / C09: the monitor's loop closes its done latch on every return; Stop returns only after the loop
+// has finished; a worker checks exactly the hosts it takes from the queue ------------------------------------
+
+//@ func (*Monitor).loop
+//@   prop C15 C09
+//@   requires m != nil && m.done != nil && !closed(m.done) && m.config != nil && m.ctx != nil
+//@   modifies all
+//@   ensures @done-closed-on-every-return closed(m.done)
+//@   proves @the-loop-ends-only-when-the-monitor-is-cancelled waitedfor(ctxdone(m.ctx))
+//@   loop 0 invariant ticker != nil
+//@   loop 0 assume m.config != nil && m.ctx != nil && m.done != nil && !closed(m.done)
+
+//@ func (*Monitor).Stop
+//@   prop C15 C09
+//@   modifies all
+//@   proves @stop-returns-only-after-the-loop-has-finished m != nil ==> waitedfor(m.done)
+
+//@ func (*Monitor).checkHosts$2
+//@   prop C15
+//@   requires deref(m) != nil
+//@   modifies all
+//@   callpre checkHostAndUpdateStatus @a-worker-checks-with-its-own-monitor arg0 == deref(m)
+//@   assume @before:checkHostAndUpdateStatus arg1 != nil && arg1.Stats != nil && deref(m).config != nil && deref(m).hostSet != nil && setok(deref(m).hostSet) && cachefresh(deref(m).hostSet)
